@@ -52,11 +52,21 @@ impl FrameParser {
 }
 
 //@item rodbus/src/common/frame.rs | FramedReader
+//@trusted R3 cancellation model: a dropped `next_frame` future leaves the reader in a state satisfying next_frame's proved loop invariant (wf, same parser kind, byte stream conserved, nothing sent)
 impl FramedReader {
     // struct invariant; it holds at every await point of next_frame, so dropping the future (select!) is safe
     pub open spec fn wf(&self) -> bool { self.parser.wf(self.buffer@) && self.buffer.wf() }
     // the bytes received and not yet delivered as a frame
     pub open spec fn logical(&self) -> Seq<u8> { self.parser.held() + self.buffer@ }
+
+    // R3: what a cancelled `next_frame` future (the losing arm of a select!) may have done.  This is next_frame's own loop
+    // invariant, which is proved to hold at its only await point; dropping the future there leaves exactly such a state.
+    #[verifier::external_body]
+    pub fn cancelled_next_frame(&mut self, io: &mut PhysLayer)
+        requires old(self).wf(),
+        ensures final(self).wf(), final(self).parser.same_kind(&old(self).parser), final(io).sent == old(io).sent,
+            final(self).logical() + final(io).pending =~= old(self).logical() + old(io).pending,
+    { unimplemented!() }
 
 //@fn rodbus/src/common/frame.rs | FramedReader::tcp | tags=C05
 //@|    ensures r.wf(), r.logical().len() == 0, r.parser is Tcp,
